@@ -42,12 +42,14 @@ TEMPLATES = {
 WIDTHS = [{"U": (1, 0), "V": (0, 2)}, {"U": (0, 1)}, {"U": (2, 1), "V": (1, 1)}, {}, {"V": (2, 0)}, {"U": (0, 0), "V": (0, 1)},
           {"U": (1, 2), "V": (2, 2)}, {"U": (2, 0), "V": (0, 0)}, {"U": (1, 1)}]
 RULES = {"fill-sym": ("fill", "fill"), "extend-fill": ("extend", "fill"), "periodic-extend": ("periodic", "extend")}
+DUMMY_SETS = [("U", "V"), ("X", "Y"), ("Y", "Z"), ("Z", "X")]  # dummy names may coincide with real axis names under any binding
 WAYS = ["apply", "grid-method", "decorator", "hints", "override", "override-scalar"]
 
 
 def sig_str(tpl, names=None):
     ins, outs = TEMPLATES[tpl]
-    f = lambda args: ",".join("(" + ",".join("%s:%s" % (n, p) for n, p in a) + ")" for a in args)  # noqa
+    nm = names or {"U": "U", "V": "V"}
+    f = lambda args: ",".join("(" + ",".join("%s:%s" % (nm[n], p) for n, p in a) + ")" for a in args)  # noqa
     return f(ins) + "->" + f(outs)
 
 
@@ -64,7 +66,7 @@ def cases(tier):
                 if any(any(d not in [n for n, _ in a] for d in w) for a in TEMPLATES[tpl][0]):
                     continue
                 for rule in RULES:
-                    out.append(dict(kind="rec", tpl=tpl, real=list(real), wi=wi, rule=rule, lay=0))
+                    out.append(dict(kind="rec", tpl=tpl, real=list(real), wi=wi, rule=rule, lay=0, dset=(wi + len(out)) % len(DUMMY_SETS)))
                     if tier == "thorough":
                         out.append(dict(kind="rec", tpl=tpl, real=list(real), wi=wi, rule=rule, lay=1))
     for tpl in ("T1", "T2", "T3"):
@@ -151,7 +153,9 @@ def case_rec(W, cfg):
     boundary = {bind[d]: rule_by_dummy[d] for d in dummies}
     fill = {bind[d]: fv for d in dummies if rule_by_dummy[d] == "fill"}
     args, axis = make_inputs(W, grid, ds, tpl, bind, cfg["lay"])
-    sig = sig_str(tpl)
+    dn = dict(zip(("U", "V"), DUMMY_SETS[cfg.get("dset", 0)]))
+    sig = sig_str(tpl, dn)
+    widths_named = {dn[d]: w for d, w in widths.items()}
     ncore_in = [len(a) for a in ins]
     out_core_shapes = [tuple(ds.sizes[AXES[bind[n]][p]] for n, p in a) for a in outs]
     # expected loop dims: all non-core dims in order of first appearance over the inputs
@@ -179,7 +183,7 @@ def case_rec(W, cfg):
 
     for way in WAYS:
         rec = Recorder(W, ncore_in, out_core_shapes)
-        kw = dict(boundary_width=dict(widths) if widths else None, boundary=dict(boundary), fill_value=dict(fill) if fill else None)
+        kw = dict(boundary_width=dict(widths_named) if widths_named else None, boundary=dict(boundary), fill_value=dict(fill) if fill else None)
         lab = "%s:%s" % (tpl, way)
         try:
             if way == "apply":
@@ -209,8 +213,8 @@ def case_rec(W, cfg):
                 hinted = ns["hinted"]
                 ann = {}
                 for pn, a in zip(params, ins):
-                    ann[pn] = Annotated[np.ndarray, ",".join("%s:%s" % (n, p) for n, p in a)]
-                outs_ann = [Annotated[np.ndarray, ",".join("%s:%s" % (n, p) for n, p in a)] for a in outs]
+                    ann[pn] = Annotated[np.ndarray, ",".join("%s:%s" % (dn[n], p) for n, p in a)]
+                outs_ann = [Annotated[np.ndarray, ",".join("%s:%s" % (dn[n], p) for n, p in a)] for a in outs]
                 if len(outs) == 1 and not outs[0]:
                     pass  # no return annotation: output without core dims
                 elif len(outs_ann) == 1:
